@@ -2,8 +2,11 @@ package checks
 
 import (
 	"context"
+	"crypto/sha256"
+	"encoding/hex"
 	"encoding/json"
 	"fmt"
+	"io"
 	gofs "io/fs"
 	"os"
 	"path"
@@ -58,6 +61,13 @@ func collectFS(f fsutil.FS, target string) ([]walked, error) {
 		st, ok := fi.Sys().(*types.Stat)
 		if !ok {
 			return fmt.Errorf("%s: Sys() is %T", p, fi.Sys())
+		}
+		// asking an entry twice gives the same answer (wrappers such as the
+		// hard-link reset ask, and pass the entry on to a consumer that asks again)
+		if fi2, err := e.Info(); err != nil {
+			return fmt.Errorf("%s: second Info(): %v", p, err)
+		} else if st2, ok := fi2.Sys().(*types.Stat); !ok || !st2.EqualVT(st) {
+			return fmt.Errorf("%s: Info() asked twice: first %v, then %v", p, st, fi2.Sys())
 		}
 		out = append(out, walked{p, st})
 		return nil
@@ -466,6 +476,24 @@ func c09Check(env *h.Env, c *c09Case) error {
 		}
 		if err := cmpWalk("SubDirFS.Walk(\"\")", got, build("")); err != nil {
 			return err
+		}
+		// what the composite reports it also opens: the bytes of that sub-tree's file
+		for _, s := range subs {
+			for p, e := range s.snap {
+				if e.Kind != h.KFile || e.Size == 0 {
+					continue
+				}
+				rc, err := cf.Open(s.name + "/" + p)
+				if err != nil {
+					return fmt.Errorf("SubDirFS.Open(%q): %v", s.name+"/"+p, err)
+				}
+				dt, _ := io.ReadAll(rc)
+				rc.Close()
+				sum := sha256.Sum256(dt)
+				if hex.EncodeToString(sum[:]) != e.Sha {
+					return fmt.Errorf("SubDirFS.Open(%q) yields %d bytes that are not that file's content (sub-directories were handed over as %v)", s.name+"/"+p, len(dt), c.Subs)
+				}
+			}
 		}
 		if c.SubWalk != "" {
 			got, err = collectFS(cf, c.SubWalk)
